@@ -432,6 +432,7 @@ class SimOS(object):
         ofd.closed = True
         if ofd.inode.lock_ofd is ofd:
             ofd.inode.lock_ofd = None
+            self.kernel.post_event("unlocked", ofd.path)
 
     def _builtin_open(self, path, mode="r", *args, **kwargs):
         if "b" not in mode:
@@ -740,6 +741,7 @@ class _FcntlFacade(object):
             s._ev("funlock", ofd.path)
             if ino.lock_ofd is ofd:
                 ino.lock_ofd = None
+                s.kernel.post_event("unlocked", ofd.path)
             return
         if not op & LOCK_EX:
             raise HarnessError("only LOCK_EX/LOCK_UN are simulated")
@@ -747,12 +749,14 @@ class _FcntlFacade(object):
         if ino.lock_ofd is None or ino.lock_ofd is ofd:
             ino.lock_ofd = ofd
             s.kernel.count("flock_acquired")
+            s.kernel.post_event("locked", ofd.path)
             return
         s.kernel.count("flock_contended")
         if op & LOCK_NB:
             raise _oserr(errno.EAGAIN)
         s.kernel.block_until(lambda: ino.lock_ofd is None, desc="flock")
         ino.lock_ofd = ofd
+        s.kernel.post_event("locked", ofd.path)
 
 
 class _MmapFacade(object):
